@@ -232,10 +232,14 @@ def run_session(s):
         entry = CAT[c["f"]]
         p = entry["variants"][c.get("variant", 0)]
         ev = {"ev": "call", "f": c["f"], "variant": c.get("variant", 0), "raised": False, "err": "",
-              "cfg": [c.get("backend", ""), c.get("dtype", ""), c.get("layout", "")]}
+              "cfg": [c.get("backend", ""), c.get("dtype", ""), c.get("layout", "")],
+              # input family: "std" = inside the Supported table; "nonfinite" = rasters with NaN, +inf and -inf cells for EVERY
+              # function (a function may refuse them: outside its domain, not compared with the Supported table)
+              "fam": "nonfinite" if c.get("nonfinite") else "std"}
         if c.get("args") is None:
             ins = A.build_inputs(entry, c["dtype"], c.get("layout", "C"), c.get("backend", "numpy"), c.get("seed", 0),
-                                 finite=bool(c.get("finite")), p=p, single_chunk=bool(c.get("single_chunk")))
+                                 finite=bool(c.get("finite")), p=p, single_chunk=bool(c.get("single_chunk")),
+                                 nonfinite=bool(c.get("nonfinite")), attrs_family=int(c.get("attrs_family", 0)))
             names = []
             for role, x, _m in ins:
                 nm = "%d_%s" % (k, role)
